@@ -176,6 +176,47 @@ def build_harness(flavour="release"):
 
 # ----------------------------------------------------------------------------- running
 
+ZONE_DEPENDENT = (b"lookup ", b"dtfrom ", b"dtfromtn ", b"find ", b"findn ")
+SHARD_MIN_BYTES = 24 << 20
+
+
+def shard_stream(hpath, want=16):
+    """split a harness stream into up to `want` files at lines that do not depend on the current zone"""
+    size = os.path.getsize(hpath)
+    n = min(want, size // SHARD_MIN_BYTES)
+    if n < 2:
+        return [hpath]
+    cuts = [0]
+    with open(hpath, "rb") as f:
+        for k in range(1, n):
+            f.seek(size * k // n)
+            f.readline()
+            while True:
+                pos = f.tell()
+                line = f.readline()
+                if not line:
+                    break
+                if not line.startswith(ZONE_DEPENDENT):
+                    if pos > cuts[-1]:
+                        cuts.append(pos)
+                    break
+        cuts.append(size)
+        paths = []
+        for k in range(len(cuts) - 1):
+            sp = "%s.s%d" % (hpath, k)
+            f.seek(cuts[k])
+            left = cuts[k + 1] - cuts[k]
+            with open(sp, "wb") as o:
+                while left > 0:
+                    b = f.read(min(left, 1 << 22))
+                    if not b:
+                        break
+                    o.write(b)
+                    left -= len(b)
+            paths.append(sp)
+    return paths
+
+
 def run_pipe(harness_bin, hargs, stdin_file=None, timeout=3600):
     """harness ... | tzmodel ; returns driver output lines and harness comment lines"""
     driver = os.path.join(LEAN, ".lake", "build", "bin", "tzmodel")
@@ -192,8 +233,29 @@ def run_pipe(harness_bin, hargs, stdin_file=None, timeout=3600):
     if p.returncode != 0:
         # an abort (allocation failure, stack overflow) kills the harness: that is itself an observation
         return {"harness_rc": p.returncode, "harness_err": p.stderr.decode("utf-8", "replace")[-2000:], "lines": [], "comments": [], "hpath": hpath, "wall": time.time() - t0}
-    with open(hpath, "rb") as hf:
-        d = subprocess.run([driver], stdin=hf, stdout=subprocess.PIPE, stderr=subprocess.PIPE, timeout=timeout)
+    shards = shard_stream(hpath)
+    if len(shards) == 1:
+        with open(hpath, "rb") as hf:
+            d = subprocess.run([driver], stdin=hf, stdout=subprocess.PIPE, stderr=subprocess.PIPE, timeout=timeout)
+    else:
+        # the driver's only state is the current zone: shards start at lines that do not depend on it
+        def one(sp):
+            with open(sp, "rb") as sf:
+                return subprocess.run([driver], stdin=sf, stdout=subprocess.PIPE, stderr=subprocess.PIPE, timeout=timeout)
+        with ThreadPoolExecutor(max_workers=len(shards)) as ex:
+            ds = list(ex.map(one, shards))
+        for sp in shards:
+            try:
+                os.remove(sp)
+            except OSError:
+                pass
+
+        class _D:
+            pass
+        d = _D()
+        d.returncode = max(x.returncode for x in ds)
+        d.stdout = b"".join(x.stdout for x in ds)
+        d.stderr = b"".join(x.stderr for x in ds)
     comments = []
     with open(hpath, "r", errors="replace") as hf:
         for line in hf:
